@@ -511,3 +511,69 @@ def dict_plus(d, k, n):
     if out[k] == 0:
         del out[k]
     return out
+
+
+# ---- serialisation -----------------------------------------------------------------------------------------------------
+def written(f):
+    """the bytes written to a file object so far"""
+    return f.getvalue() if hasattr(f, "getvalue") else bytes(f)
+
+
+def f32_at(b, off):
+    """the IEEE binary32 value stored little-endian at b[off:off+4]"""
+    import struct
+    return struct.unpack("<f", bytes(b[off:off + 4]))[0]
+
+
+def byte_of(v, k):
+    """byte k (little-endian) of the non-negative integer v"""
+    return (v >> (8 * k)) & 255
+
+
+def f32_byte(x, k):
+    """byte k (little-endian) of the IEEE binary32 encoding of x"""
+    import struct
+    return struct.pack("<f", x)[k]
+
+
+def bloom_image(s, b, off):
+    """b[off:] starts with the documented Bloom export of s: cells, then the footer
+    uint64 estimated_elements, uint64 elements_added, float false_positive_rate"""
+    n = len(s._bloom)
+    return (all(b[off + i] == s._bloom[i] for i in range(0, n))
+            and le_bytes(b, off + n, 8) == s._est_elements and le_bytes(b, off + n + 8, 8) == s._els_added
+            and f32_at(b, off + n + 16) == f32(s._fpr)
+            and all(b[off + n + k] == byte_of(s._est_elements, k) for k in range(0, 8))
+            and all(b[off + n + 8 + k] == byte_of(s._els_added, k) for k in range(0, 8))
+            and all(b[off + n + 16 + k] == f32_byte(s._fpr, k) for k in range(0, 4)))
+
+
+def i32_at(b, off):
+    import struct
+    return struct.unpack("<i", bytes(b[off:off + 4]))[0]
+
+
+def i64_at(b, off):
+    import struct
+    return struct.unpack("<q", bytes(b[off:off + 8]))[0]
+
+
+def default_mode(cls):
+    """the query method a count-min class answers with by default"""
+    name = cls.__name__ if isinstance(cls, type) else type(cls).__name__
+    probe = cls if not isinstance(cls, type) else None
+    return {"CountMeanSketch": "mean", "CountMeanMinSketch": "mean-min"}.get(name, "min")
+
+
+def cms_image(s, b, off):
+    """b[off:] starts with the documented count-min export of s: width*depth int32 cells, then the footer
+    uint32 width, uint32 depth, int64 elements_added"""
+    n = cw(s) * cd(s)
+    return (all(i32_at(b, off + 4 * c) == s._bins[c] for c in range(0, n))
+            and le_bytes(b, off + 4 * n, 4) == cw(s) and le_bytes(b, off + 4 * n + 4, 4) == cd(s)
+            and i64_at(b, off + 4 * n + 8) == ctotal(s))
+
+
+def mode_of(s):
+    """the query mode a sketch object answers with: 'min', 'mean' or 'mean-min'"""
+    return s.query_type
